@@ -30,6 +30,7 @@ import (
 	"verif/internal/sched"
 	"verif/internal/snap"
 	"verif/internal/vrun"
+	"verif/internal/zipgen"
 )
 
 const key = "k1"
@@ -37,17 +38,17 @@ const key = "k1"
 var scratch string
 
 type caseSpec struct {
-	Mode     string `json:"mode"` // fault | interleave
-	Kind     string `json:"cache_kind"`
-	Prev     int    `json:"previous_versions"`
-	FaultOp  string `json:"faulted_call,omitempty"` // store | fetch
-	K        int    `json:"k,omitempty"`
-	Fault    string `json:"fault,omitempty"`
-	Clients  int    `json:"clients,omitempty"`
-	Policy   string `json:"policy,omitempty"`
+	Mode     string  `json:"mode"` // fault | interleave
+	Kind     string  `json:"cache_kind"`
+	Prev     int     `json:"previous_versions"`
+	FaultOp  string  `json:"faulted_call,omitempty"` // store | fetch
+	K        int     `json:"k,omitempty"`
+	Fault    string  `json:"fault,omitempty"`
+	Clients  int     `json:"clients,omitempty"`
+	Policy   string  `json:"policy,omitempty"`
 	AdvanceP float64 `json:"advance_p,omitempty"`
-	Index    int    `json:"index"`
-	Stream   string `json:"stream"`
+	Index    int     `json:"index"`
+	Stream   string  `json:"stream"`
 }
 
 // makeVersion writes version v's source tree (every file embeds the version id; a manifest lists the files).
@@ -61,6 +62,16 @@ func makeVersion(root string, v int) string {
 			p = fmt.Sprintf("data/sub%d/g%d.bin", v%3, i)
 		}
 		files[p] = fmt.Sprintf("version=%d file=%d %s", v, i, strings.Repeat(fmt.Sprintf("<%d>", v), 50+v*7+i))
+	}
+	// some versions carry archives (a stored tree is installed as it is: archives inside it stay archives)
+	if v%2 == 0 {
+		inner := []zipgen.Entry{zipgen.E("inner.txt", []byte(fmt.Sprintf("version=%d inner", v))), zipgen.E("d/deep.txt", []byte(strings.Repeat("x", 100+v)))}
+		if b, err := zipgen.Build(inner); err == nil {
+			files[fmt.Sprintf("lib/dep%d.jar", v%5)] = string(b)
+			if v%4 == 0 {
+				files["dist/bundle.zip"] = string(b)
+			}
+		}
 	}
 	var names []string
 	for p := range files {
@@ -291,6 +302,13 @@ func faultScenario(ctx context.Context, r *vrun.Run, res *result) {
 	_, _ = res.fetch(ctx, "r", rc)
 	// and once more by yet another client (the first recovery fetch may itself have repaired hash files)
 	_, _ = res.fetch(ctx, "r2", x.cache("r2"))
+	// A-B-A: the version stored before the interrupted Store is stored again by a fresh client; when that reports
+	// success a fault-free Fetch must install it
+	if sc.FaultOp == "store" && sc.Prev >= 1 {
+		if err := res.store(ctx, "h", x.cache("h"), sc.Prev); err == nil {
+			_, _ = res.fetch(ctx, "h2", x.cache("h2"))
+		}
+	}
 }
 
 func interleaveScenario(ctx context.Context, r *vrun.Run, res *result) {
@@ -458,6 +476,27 @@ func analyse(r *vrun.Run, res *result) {
 					r.Violation(vrun.Sig{"oracle": "fault-free-fetch", "cache": sc.Kind}, "fault-free Store followed by a Fetch that fails: "+trunc(o.Err, 160), witness())
 					break
 				}
+			}
+		}
+		// re-store of the previous version after the interrupted Store
+		var restore, refetch *op
+		for i := range ops {
+			switch {
+			case ops[i].Actor == "h" && ops[i].Op == "Store":
+				restore = &ops[i]
+			case ops[i].Actor == "h2" && ops[i].Op == "Fetch":
+				refetch = &ops[i]
+			}
+		}
+		if restore != nil && restore.Err == "" && refetch != nil {
+			r.Obs("restores_of_the_previous_version_judged", 1)
+			switch {
+			case refetch.Err != "":
+				r.Violation(vrun.Sig{"oracle": "successful-store-is-visible", "effect": "later-fetch-fails", "mode": "re-store-of-previous-version", "cache": sc.Kind, "fault": faultClass},
+					fmt.Sprintf("after a Store(v%d) interrupted by %q, Store(v%d) reported success but a later fault-free Fetch fails: %s", newV, res.faultHit, restore.V, trunc(refetch.Err, 160)), witness())
+			case refetch.V != restore.V:
+				r.Violation(vrun.Sig{"oracle": "successful-store-is-visible", "effect": "other-version-fetched", "mode": "re-store-of-previous-version", "cache": sc.Kind, "fault": faultClass},
+					fmt.Sprintf("after a Store(v%d) interrupted by %q, Store(v%d) reported success but a later Fetch installed v%d", newV, res.faultHit, restore.V, refetch.V), witness())
 			}
 		}
 	case "interleave":
